@@ -63,4 +63,8 @@ def to_int(val: Any) -> int:
             f"value has {len(val)} digits",
             token=None,
         )
-    return int(val)
+    try:
+        return int(val)
+    except (TypeError, OverflowError) as err:
+        # None, a list, infinity ... Callers handle "not an integer" as ValueError.
+        raise ValueError(str(err)) from err
